@@ -8,7 +8,8 @@
    whereas the MODEL side follows the code (slices, python dict counters, CSR / COO assembly with duplicate summing,
    sort + run-summing loop of sum_coo_entries, column codes head * n + tail). *)
 From Coq Require Import ZArith List Lia Bool Permutation Arith.
-From VZ Require Import Model.K10_Assembly Model.K7_Ngrams Proofs.K10_Assembly_proofs Proofs.K7_Ngrams_proofs.
+From VZ Require Import Model.K10_Assembly Model.K7_Ngrams Model.K7_AddHistory
+                       Proofs.K10_Assembly_proofs Proofs.K7_Ngrams_proofs Proofs.K7_AddHistory_proofs.
 Import ListNotations.
 Open Scope Z_scope.
 
@@ -224,6 +225,84 @@ Theorem C06_add_unrepaired_refuted : exists Xa Xb ord X,
 Proof. exists [[11; 12]; [12; 13]], [[13; 14]], [14], [[11; 14; 14]]. vm_compute. split; reflexivity. Qed.
 Print Assumptions C06_add_unrepaired_refuted.
 
+(* ---------------------------------------------------------------- histories of '+' on shared models *)
+(* A session keeps its vectorizers in a store; Merge i j ord appends store[i] + store[j] (Model/K7_AddHistory.v).
+   history_ok: every step names two entries of the current store (any two: the same one twice, an operand of an
+   earlier merge, an earlier result) and `ord` is some iteration order of that call's python set.
+   For every pool of models fitted without pruning and every such history: no merge raises; the pool models are still
+   the fitted models (operands unchanged); and EVERY entry of the final store is, up to the column permutation given by
+   the labels, the model fitted on the concatenation named by its history (hist_corpora: rows of the left operand
+   first) — same set of columns, same shape, same training cells, and a transform that counts the tokens of all its
+   columns in any X'. *)
+Theorem C06_add_history : forall pool ops,
+  history_ok (map uni_fit pool) ops ->
+  exists st', run_history (map uni_fit pool) ops = Ok st' /\
+    length st' = (length pool + length ops)%nat /\
+    (forall k X, nth_error pool k = Some X -> nth_error st' k = Some (uni_fit X)) /\
+    (forall k m, nth_error st' k = Some m ->
+       let X := nth k (hist_corpora pool ops) [] in
+       let f := uni_fit X in let lf := sort_uniq (concat X) in
+       exists ls, counts_ok m ls X /\
+         (forall l, In l ls <-> In l lf) /\
+         nrows (u_train m) = nrows (u_train f) /\ ncols (u_train m) = ncols (u_train f) /\
+         (forall i l j jf, (i < length X)%nat -> index_of l ls = Some j -> index_of l lf = Some jf ->
+            cell (entries (u_train m)) (Z.of_nat i) j = cell (entries (u_train f)) (Z.of_nat i) jf) /\
+         (forall b X' i l j, (i < length X')%nat -> index_of l ls = Some j ->
+            cell (entries (ng_transform (uni_as_ng m b) X')) (Z.of_nat i) j
+            = Z.of_nat (count_occ Z.eq_dec (nth i X' []) l))).
+Proof. exact add_history. Qed.
+Print Assumptions C06_add_history.
+
+(* the same from any store whose entries stand for corpora (e.g. results of earlier sessions) *)
+Theorem C06_add_history_any_store : forall ops st cs,
+  Forall2 stands_for st cs -> history_ok st ops ->
+  exists st', run_history st ops = Ok st' /\ (exists ext, st' = st ++ ext) /\
+              Forall2 stands_for st' (hist_corpora cs ops).
+Proof. exact add_history_inv. Qed.
+Print Assumptions C06_add_history_any_store.
+
+(* whatever the store holds and whatever the steps are: a history that completes has left every entry in place *)
+Theorem C06_add_operands_unchanged : forall ops st st',
+  run_history st ops = Ok st' -> forall k m, nth_error st k = Some m -> nth_error st' k = Some m.
+Proof. exact run_history_extends. Qed.
+Print Assumptions C06_add_operands_unchanged.
+
+(* (a + b) + c and a + (b + c): same columns, same shape, same cells label by label *)
+Theorem C06_add_assoc : forall a la Xa b lb Xb c lc Xc o1 o2 o3 o4 ab abc bc abc',
+  fits a la Xa -> fits b lb Xb -> fits c lc Xc ->
+  Permutation o1 (disjoint_vocab a b) -> ng_add o1 a b = Ok ab ->
+  Permutation o2 (disjoint_vocab ab c) -> ng_add o2 ab c = Ok abc ->
+  Permutation o3 (disjoint_vocab b c) -> ng_add o3 b c = Ok bc ->
+  Permutation o4 (disjoint_vocab a bc) -> ng_add o4 a bc = Ok abc' ->
+  let l1 := (la ++ o1) ++ o2 in let l2 := la ++ o4 in
+  (forall l, In l l1 <-> In l l2) /\
+  nrows (u_train abc) = nrows (u_train abc') /\ ncols (u_train abc) = ncols (u_train abc') /\
+  (forall i l j1 j2, (i < length (Xa ++ Xb ++ Xc))%nat -> index_of l l1 = Some j1 -> index_of l l2 = Some j2 ->
+     cell (entries (u_train abc)) (Z.of_nat i) j1 = cell (entries (u_train abc')) (Z.of_nat i) j2).
+Proof. exact add_assoc. Qed.
+Print Assumptions C06_add_assoc.
+
+(* a + b and b + a: same columns and shape, same cells label by label with the two row blocks swapped *)
+Theorem C06_add_comm : forall a la Xa b lb Xb o1 o2 ab ba,
+  fits a la Xa -> fits b lb Xb ->
+  Permutation o1 (disjoint_vocab a b) -> ng_add o1 a b = Ok ab ->
+  Permutation o2 (disjoint_vocab b a) -> ng_add o2 b a = Ok ba ->
+  let l1 := la ++ o1 in let l2 := lb ++ o2 in
+  (forall l, In l l1 <-> In l l2) /\
+  nrows (u_train ab) = nrows (u_train ba) /\ ncols (u_train ab) = ncols (u_train ba) /\
+  (forall i l j1 j2, index_of l l1 = Some j1 -> index_of l l2 = Some j2 ->
+     ((i < length Xa)%nat ->
+        cell (entries (u_train ab)) (Z.of_nat i) j1 = cell (entries (u_train ba)) (Z.of_nat (length Xb + i)) j2) /\
+     ((i < length Xb)%nat ->
+        cell (entries (u_train ab)) (Z.of_nat (length Xa + i)) j1 = cell (entries (u_train ba)) (Z.of_nat i) j2)).
+Proof. exact add_comm. Qed.
+Print Assumptions C06_add_comm.
+
+(* `fits` is met by every model fitted without pruning (and, by C06_add_history_any_store, by every sum of such) *)
+Theorem C06_add_fitted_fits : forall X, fits (uni_fit X) (sort_uniq (concat X)) X.
+Proof. exact fits_fit. Qed.
+Print Assumptions C06_add_fitted_fits.
+
 (* ---------------------------------------------------------------- non-vacuity *)
 Example C06_ex_ngrams : ngrams_of [1; 2; 3] 2 Exact = [[1; 2]; [2; 3]] /\ ngrams_of [1; 2] 2 Exact = [[1; 2]]
   /\ ngrams_of [1] 2 Exact = [] /\ ngrams_of [1; 2; 3] 2 Subgrams = [[1]; [1; 2]; [2]; [2; 3]; [3]].
@@ -254,3 +333,27 @@ Example C06_ex_add : exists c,
   /\ Permutation [4] (disjoint_vocab (uni_fit [[1; 2]; [2; 3]]) (uni_fit [[3; 4]]))
   /\ ng_transform (uni_as_ng c Exact) [[1; 4; 4; 9]] = (1, 4, [(0, 0, 1); (0, 3, 2)]).
 Proof. eexists. split; [vm_compute; reflexivity|]. split; [vm_compute; apply Permutation_refl|vm_compute; reflexivity]. Qed.
+
+(* a history on shared models: store 0:a 1:b 2:c, then 3:a+b 4:a+c 5:b+a 6:(a+b)+c 7:b+c 8:a+(b+c) 9:a+a; the set of the
+   merge b+c is iterated as [5; 1] *)
+Example C06_ex_history :
+  let pool := [[[1; 2]; [2; 3]]; [[3; 4]]; [[5]; [1]]] in
+  let ops := [Merge 0 1 [4]; Merge 0 2 [5]; Merge 1 0 [1; 2]; Merge 3 2 [5]; Merge 1 2 [5; 1]; Merge 0 7 [4; 5];
+              Merge 0 0 []] in
+  history_ok (map uni_fit pool) ops /\
+  exists st', run_history (map uni_fit pool) ops = Ok st' /\
+    nth_error st' 0 = Some (uni_fit [[1; 2]; [2; 3]]) /\
+    option_map u_idx (nth_error st' 4) = Some [(0, 1); (1, 2); (2, 3); (3, 5)] /\
+    option_map u_train (nth_error st' 6)
+      = Some (5, 5, [(0, 0, 1); (0, 1, 1); (1, 1, 1); (1, 2, 1); (2, 2, 1); (2, 3, 1); (3, 4, 1); (4, 0, 1)]) /\
+    option_map u_idx (nth_error st' 8) = Some [(0, 1); (1, 2); (2, 3); (3, 4); (4, 5)] /\
+    option_map u_train (nth_error st' 8)
+      = Some (5, 5, [(0, 0, 1); (0, 1, 1); (1, 1, 1); (1, 2, 1); (2, 2, 1); (2, 3, 1); (3, 4, 1); (4, 0, 1)]).
+Proof.
+  cbv zeta. split.
+  - repeat (cbn [history_ok]; eexists; eexists; split; [vm_compute; reflexivity|]; split; [vm_compute; reflexivity|];
+            split; [vm_compute; first [apply Permutation_refl|apply perm_swap]|];
+            let c := fresh "c" in let Hc := fresh "Hc" in intros c Hc; vm_compute in Hc; injection Hc as <-).
+    exact I.
+  - eexists. split; [vm_compute; reflexivity|]. vm_compute. repeat split.
+Qed.
